@@ -685,3 +685,99 @@ Proof.
   unfold dec_field in H. cbn [sfd fd_label fd_type fvals sval] in H.
   apply dec_single_msg_inv in H. exact H.
 Qed.
+
+(* ------------------------------------------------------------------ nesting depth is bounded by the encoded length *)
+Lemma fold_max_le {A} (g : A -> nat) l b : (forall x, In x l -> (g x <= b)%nat) ->
+  (fold_right (fun y m => Nat.max (g y) m) O l <= b)%nat.
+Proof.
+  induction l as [|y l IH]; intros H; cbn [fold_right]; [lia|].
+  pose proof (H y (or_introl eq_refl)). specialize (IH (fun x Hx => H x (or_intror Hx))). lia.
+Qed.
+
+Lemma wenc_flat_map_ge {A} (f : A -> list wfield) l x : In x l ->
+  (length (wenc (f x)) <= length (wenc (flat_map f l)))%nat.
+Proof.
+  induction l as [|y l IH]; intros H; [destruct H|]. cbn [flat_map]. rewrite wenc_app, app_length.
+  destruct H as [->|H]; [lia|]. specialize (IH H). lia.
+Qed.
+
+Lemma wenc_bytes_field_ge n b : (2 + length b <= length (wenc [(n, WBytes b)]))%nat.
+Proof.
+  cbn [wenc flat_map]. rewrite app_nil_r. unfold wenc_field. cbn [fst snd wt_of_wval wenc_val].
+  rewrite !app_length.
+  destruct (varint_enc_cons (n * 8 + 2)) as [b1 [t1 E1]]. destruct (varint_enc_cons (plen b)) as [b2 [t2 E2]].
+  rewrite E1, E2. cbn [length]. lia.
+Qed.
+
+Lemma depth_le_length v : forall S lbl t n, wf_fld S lbl t v = true ->
+  (depth v <= length (wenc (wfld n v)))%nat.
+Proof.
+  induction v as [k x|k b|fs IH|q vs IH|kvs IH] using pval_ind'; intros S lbl t n Hwf;
+    destruct lbl as [|p|kk]; cbn [wf_fld] in Hwf; try discriminate; cbn [depth]; try lia.
+  - (* message *)
+    destruct t as [|name]; [discriminate|]. destruct (find_msg S name) as [md|]; [|discriminate].
+    apply andb_true_iff in Hwf as [_ Hall]. rewrite forallb_forall in Hall. rewrite Forall_forall in IH.
+    cbn [wfld]. pose proof (wenc_bytes_field_ge n (wenc (flat_map (fun nv => wfld (fst nv) (snd nv)) fs))) as Hge.
+    assert (Hm : (fold_right (fun nv m => Nat.max (depth (snd nv)) m) O fs <=
+                  length (wenc (flat_map (fun nv => wfld (fst nv) (snd nv)) fs)))%nat).
+    { apply fold_max_le. intros nv Hin. specialize (Hall nv Hin). cbn beta in Hall.
+      destruct (find_field md (fst nv)) as [fd|]; [|discriminate].
+      apply andb_true_iff in Hall as [_ Hv].
+      pose proof (IH nv Hin _ _ _ (fst nv) Hv).
+      pose proof (wenc_flat_map_ge (fun nv => wfld (fst nv) (snd nv)) fs nv Hin). cbn beta in *. lia. }
+    lia.
+  - (* list *)
+    apply andb_true_iff in Hwf as [Hwf Hall]. apply andb_true_iff in Hwf as [Hwf _].
+    apply andb_true_iff in Hwf as [Hq _]. apply eqb_prop in Hq.
+    rewrite forallb_forall in Hall. rewrite Forall_forall in IH.
+    destruct q; cbn [wfld].
+    + (* packed: elements are scalars *)
+      symmetry in Hq. apply andb_true_iff in Hq as [_ Hnum].
+      destruct t as [k|]; [|discriminate]. cbn [type_numeric] in Hnum.
+      assert (Hz : (fold_right (fun x m => Nat.max (depth x) m) O vs <= 0)%nat).
+      { apply fold_max_le. intros x Hin. specialize (Hall x Hin). cbn beta in Hall.
+        destruct x; cbn [wf_fld] in Hall; try discriminate; cbn; lia. }
+      lia.
+    + apply fold_max_le. intros x Hin.
+      pose proof (IH x Hin _ _ _ n (Hall x Hin)).
+      pose proof (wenc_flat_map_ge (fun x => wfld n x) vs x Hin). cbn beta in *. lia.
+  - (* map *)
+    apply andb_true_iff in Hwf as [_ Hall]. rewrite forallb_forall in Hall. rewrite Forall_forall in IH.
+    cbn [wfld]. apply fold_max_le. intros [k x] Hin. cbn [snd].
+    specialize (Hall _ Hin). cbn [fst snd] in Hall.
+    apply andb_true_iff in Hall as [Hall _]. apply andb_true_iff in Hall as [_ Hx].
+    pose proof (IH (k, x) Hin _ _ _ 2 Hx) as Hd. cbn [snd] in Hd.
+    set (inner := wenc (key_field k :: wfld 2 x)).
+    assert (H1 : (length (wenc (wfld 2 x)) <= length inner)%nat).
+    { unfold inner. rewrite wenc_cons, app_length. lia. }
+    pose proof (wenc_bytes_field_ge n inner) as H2.
+    assert (H3 : (length (wenc [(n, WBytes inner)]) <=
+                  length (wenc (map (fun kx => (n, WBytes (wenc (key_field (fst kx) :: wfld 2 (snd kx))))) kvs)))%nat).
+    { subst inner. clear - Hin. induction kvs as [|kx kvs IHk]; [destruct Hin|].
+      cbn [map]. rewrite (wenc_cons _ (map _ kvs)), app_length. destruct Hin as [->|Hin].
+      - rewrite (wenc_cons _ []), app_length. cbn [fst snd wenc flat_map length]. lia.
+      - specialize (IHk Hin). eapply Nat.le_trans; [exact IHk|apply Nat.le_add_l]. }
+    lia.
+Qed.
+
+(* the top-level decoder (fuel from the input length) on canonical encodings *)
+Theorem decode_top_encode S name fs :
+  wf_msg S name fs = true -> decode_top S name (encode_msg fs) = Some fs.
+Proof.
+  intros Hwf. unfold decode_top. apply decode_encode_msg; [exact Hwf|].
+  pose proof (depth_le_length (VMsg fs) S LSingular (TMsg name) 1 Hwf) as H.
+  pose proof (wenc_bytes_field_ge 1 (encode_msg fs)) as H2.
+  cbn [depth] in *. cbn [wfld] in H.
+  (* depth = S max; the one-field wrapper is longer than the payload by the tag and length bytes *)
+  unfold wf_msg in Hwf. cbn [wf_fld] in Hwf.
+  destruct (find_msg S name) as [md|]; [|discriminate].
+  apply andb_true_iff in Hwf as [_ Hall]. rewrite forallb_forall in Hall.
+  assert (Hm : (fold_right (fun nv m => Nat.max (depth (snd nv)) m) O fs <= length (encode_msg fs))%nat).
+  { apply fold_max_le. intros nv Hin. specialize (Hall nv Hin). cbn beta in Hall.
+    destruct (find_field md (fst nv)) as [fd|]; [|discriminate].
+    apply andb_true_iff in Hall as [_ Hv].
+    pose proof (depth_le_length (snd nv) _ _ _ (fst nv) Hv).
+    pose proof (wenc_flat_map_ge (fun nv => wfld (fst nv) (snd nv)) fs nv Hin). cbn beta in *.
+    unfold encode_msg, msg_wire. lia. }
+  lia.
+Qed.
